@@ -484,3 +484,350 @@ def rule_pct_laws(prog, rep, rid='TB14'):
         rep.oblige(rid, not bad, {'function': g.name, 'pairs': n})
         if bad:
             rep.violation(rid, g, g.line, 'x2c', 'the two-digit helper returns 0x%02x for "%s"' % (bad[0][1], bad[0][0]))
+
+
+# ---------------------------------------------------------------------------------------------------------
+# One decoder step, tabulated: the loop body of an in-place decoder is interpreted (statement level, no loops inside) for a
+# concrete window of input bytes under the read cursor; the bytes stored through the write cursor and the cursor advance
+# are the result.  Used for the URL decoder law (TB7).
+
+class _Stop(Exception):
+    pass
+
+
+def step_eval(prog, f, body, rd, wr, window):
+    """returns (emitted bytes, read-cursor advance inside the body) or None if the body is outside the fragment"""
+    from .interp import run_function
+    env = {}
+    out = []
+    adv = [0]
+
+    def rd_byte(off):
+        k = adv[0] + off
+        if 0 <= k < len(window):
+            return window[k]
+        return 0
+
+    def as_char(v, e):
+        t = qtype(e) or ''
+        if t in ('char', 'signed char', 'const char'):
+            v &= 0xff
+            return v - 256 if v >= 128 else v
+        if t in ('unsigned char', 'uint8_t'):
+            return v & 0xff
+        return v
+
+    def cursor_off(e):
+        """offset k if e designates (rd + k), else None"""
+        s = strip(e)
+        if s.get('kind') == 'DeclRefExpr' and (s.get('referencedDecl') or {}).get('name') == rd:
+            return 0
+        if s.get('kind') == 'BinaryOperator' and s.get('opcode') in ('+', '-'):
+            a, b = children(s)
+            ka, kb = cursor_off(a), int_value(b)
+            if ka is not None and isinstance(kb, int):
+                return ka + kb if s['opcode'] == '+' else ka - kb
+            kb2, ka2 = cursor_off(b), int_value(a)
+            if kb2 is not None and isinstance(ka2, int) and s['opcode'] == '+':
+                return kb2 + ka2
+        return None
+
+    def ev(e):
+        s = strip(e)
+        k = s.get('kind')
+        v = int_value(s)
+        if isinstance(v, int):
+            return v
+        if k == 'DeclRefExpr':
+            nm = (s.get('referencedDecl') or {}).get('name')
+            if nm in env:
+                return env[nm]
+            raise _Stop('unbound ' + str(nm))
+        if k == 'UnaryOperator':
+            op = s.get('opcode')
+            c = children(s)[0]
+            if op == '*':
+                off = cursor_off(c)
+                if off is None:
+                    raise _Stop('deref')
+                return as_char(rd_byte(off), s)
+            if op == '!':
+                return int(not ev(c))
+            if op == '-':
+                return -ev(c)
+            if op == '~':
+                return ~ev(c)
+            if op in ('++', '--'):
+                nm = (strip(c).get('referencedDecl') or {}).get('name')
+                if nm == rd:
+                    adv[0] += 1 if op == '++' else -1
+                    return 0
+                if nm == wr:
+                    return 0
+                if nm in env:
+                    old = env[nm]
+                    env[nm] = old + (1 if op == '++' else -1)
+                    return old if s.get('isPostfix') else env[nm]
+            raise _Stop('unary ' + str(op))
+        if k == 'ArraySubscriptExpr':
+            off = cursor_off(children(s)[0])
+            idx = ev(children(s)[1])
+            if off is None:
+                raise _Stop('subscript')
+            return as_char(rd_byte(off + idx), s)
+        if k == 'BinaryOperator':
+            op = s.get('opcode')
+            a, b = children(s)
+            if op == '=':
+                return assign(a, ev(b), s)
+            if op == '&&':
+                return int(bool(ev(a)) and bool(ev(b)))
+            if op == '||':
+                return int(bool(ev(a)) or bool(ev(b)))
+            if op == ',':
+                ev(a)
+                return ev(b)
+            x, y = ev(a), ev(b)
+            return {'+': x + y, '-': x - y, '*': x * y, '&': x & y, '|': x | y, '^': x ^ y, '<<': x << y, '>>': x >> y,
+                    '==': int(x == y), '!=': int(x != y), '<': int(x < y), '>': int(x > y), '<=': int(x <= y), '>=': int(x >= y)}[op]
+        if k == 'CompoundAssignOperator':
+            a, b = children(s)
+            nm = (strip(a).get('referencedDecl') or {}).get('name')
+            if nm == rd and s.get('opcode') in ('+=', '-='):
+                adv[0] += ev(b) if s['opcode'] == '+=' else -ev(b)
+                return 0
+            if nm in env:
+                x, y = env[nm], ev(b)
+                env[nm] = {'+=': x + y, '-=': x - y, '|=': x | y, '&=': x & y, '^=': x ^ y}[s.get('opcode')]
+                return env[nm]
+            raise _Stop('compound')
+        if k == 'ConditionalOperator':
+            c, a, b = children(s)
+            return ev(a) if ev(c) else ev(b)
+        if k == 'CallExpr':
+            nm = prog.callee_name(s)
+            g = prog.resolve_name(f.unit, nm) if nm else None
+            if g is not None and getattr(g, 'body', None) is not None:
+                r = run_function(prog, g, [ev(a) for a in children(s)[1:]], {})
+                if r is None:
+                    raise _Stop('helper ' + nm)
+                return r
+            raise _Stop('call ' + str(nm))
+        if k == 'CStyleCastExpr':
+            return as_char(ev(children(s)[0]), s)
+        raise _Stop(str(k))
+
+    def assign(lhs, val, node):
+        l = strip_parens(lhs)
+        if l.get('kind') == 'UnaryOperator' and l.get('opcode') == '*':
+            tgt = strip_parens(children(l)[0])
+            # *wr++ = v  /  *wr = v
+            inner = strip(tgt)
+            nm = None
+            if inner.get('kind') == 'UnaryOperator' and inner.get('opcode') == '++':
+                nm = (strip(children(inner)[0]).get('referencedDecl') or {}).get('name')
+            elif inner.get('kind') == 'DeclRefExpr':
+                nm = (inner.get('referencedDecl') or {}).get('name')
+            if nm == wr:
+                out.append(val & 0xff)
+                return val
+            raise _Stop('store')
+        if l.get('kind') == 'DeclRefExpr':
+            nm = (l.get('referencedDecl') or {}).get('name')
+            env[nm] = as_char(val, l)
+            return env[nm]
+        raise _Stop('assign')
+
+    class _Break(Exception):
+        pass
+
+    class _Continue(Exception):
+        pass
+
+    def run(st):
+        k = st.get('kind')
+        if k == 'CompoundStmt':
+            for c in children(st):
+                run(c)
+        elif k == 'DeclStmt':
+            for d in children(st):
+                if d.get('kind') == 'VarDecl':
+                    i = var_init(d)
+                    env[d.get('name')] = as_char(ev(i), d) if i is not None else 0
+        elif k == 'IfStmt':
+            ch = children(st)
+            if ev(ch[0]):
+                run(ch[1])
+            elif len(ch) > 2:
+                run(ch[2])
+        elif k == 'SwitchStmt':
+            ch = children(st)
+            v = ev(ch[0])
+            body = ch[-1]
+            items = children(body)
+            start = None
+            for i, it in enumerate(items):
+                if it.get('kind') == 'CaseStmt' and int_value(children(it)[0]) == v:
+                    start = i
+                    break
+            if start is None:
+                for i, it in enumerate(items):
+                    if it.get('kind') == 'DefaultStmt':
+                        start = i
+            if start is None:
+                return
+            try:
+                for it in items[start:]:
+                    cur = it
+                    while cur.get('kind') in ('CaseStmt', 'DefaultStmt'):
+                        cur = children(cur)[-1]
+                    run(cur)
+            except _Break:
+                pass
+        elif k == 'BreakStmt':
+            raise _Break()
+        elif k == 'ContinueStmt':
+            raise _Continue()
+        elif k == 'NullStmt':
+            pass
+        elif k in ('ForStmt', 'WhileStmt', 'DoStmt', 'ReturnStmt', 'GotoStmt'):
+            raise _Stop(k)
+        else:
+            ev(st)
+    try:
+        try:
+            run(body)
+        except (_Continue, _Break):
+            pass
+    except (_Stop, KeyError, TypeError):
+        return None
+    return out, adv[0]
+
+
+def rule_url_decode_law(prog, rep, rid='TB7'):
+    """URL decoder, one step: for every byte c and a hex pair h1 h2 following it, the loop body emits ' ' for '+', the byte
+    16*hi + lo for "%h1h2" (and nothing else - a decoded '+' stays '+'), and c itself otherwise; it consumes 3 bytes for a
+    complete escape and 1 otherwise (the loop header adds the common +1)."""
+    rep.rule(rid, 'URL decoder step law, tabulated for all 255 bytes x 4 hex pairs: \'+\' -> space, %hh -> 16*hi+lo (not mapped '
+                  'again), every other byte unchanged; a complete escape consumes 3 bytes')
+    f = prog.need_func('qurl_decode')
+    loops = [x for x in walk(f.body) if x.get('kind') in ('ForStmt', 'WhileStmt')]
+    if not loops:
+        return False
+    loop = loops[0]
+    body = children(loop)[-1]
+    inner = loop.get('inner') or []
+    cond = inner[2] if loop['kind'] == 'ForStmt' and len(inner) >= 5 else children(loop)[0]
+    rdv = None
+    for y in walk(cond):
+        if y.get('kind') == 'UnaryOperator' and y.get('opcode') == '*':
+            rdv = (strip(children(y)[0]).get('referencedDecl') or {}).get('name')
+    wrv = None
+    for y in walk(body):
+        if y.get('kind') == 'BinaryOperator' and y.get('opcode') == '=':
+            l = strip_parens(children(y)[0])
+            if l.get('kind') == 'UnaryOperator' and l.get('opcode') == '*':
+                for z in walk(l):
+                    if z.get('kind') == 'DeclRefExpr' and (z.get('referencedDecl') or {}).get('name') != rdv:
+                        wrv = (z.get('referencedDecl') or {}).get('name')
+    if rdv is None or wrv is None:
+        return False
+    # does the loop header advance the read cursor by one?
+    hdr = 1 if loop['kind'] == 'ForStmt' and len(inner) >= 5 and inner[3] and any(
+        y.get('kind') == 'UnaryOperator' and y.get('opcode') == '++' for y in walk(inner[3])) else 0
+    bad = []
+    n = 0
+    for (h1, h2) in (('2', 'b'), ('4', '1'), ('f', 'F'), ('2', '0')):
+        for c in range(1, 256):
+            r = step_eval(prog, f, body, rdv, wrv, [c, ord(h1), ord(h2), 0])
+            if r is None:
+                return False            # the body is outside the interpretable fragment: not decided here
+            n += 1
+            emitted, adv = r
+            adv += hdr
+            if c == 43:
+                want, wadv = [32], 1
+            elif c == 37:
+                want, wadv = [int(h1 + h2, 16)], 3
+            else:
+                want, wadv = [c], 1
+            if emitted != want or adv != wadv:
+                bad.append((c, h1 + h2, emitted, adv, want, wadv))
+    rep.instance(rid, n)
+    rep.oblige(rid, not bad, {'function': f.name, 'steps_tabulated': n})
+    if bad:
+        c, hh, em, adv, want, wadv = bad[0]
+        rep.violation(rid, f, loop.get('_line'), 'step:0x%02x' % c,
+                      'for input byte 0x%02x followed by "%s" the decoder step emits %s and consumes %d byte(s); the URL law gives %s and %d '
+                      '(%d of %d tabulated steps differ)' % (c, hh, ['0x%02x' % b for b in em], adv, ['0x%02x' % b for b in want], wadv, len(bad), n))
+    return True
+
+
+def rule_codec_framing(prog, rep):
+    """TB15: an encoder that shrinks its output buffer keeps the terminator: realloc(base, n) after the terminator was stored at
+    *P requires n - (P - base) to fold to a constant >= 1.  TB16: an in-place decoder returns the distance between its write
+    cursor and the start of the buffer (the number of decoded bytes) - not a string function of the output, which stops at
+    the first decoded NUL byte."""
+    from .dataflow import ReachingDefs, poly_of
+    rep.rule('TB15', 'an encoder that shrinks its output keeps the terminator: the new size exceeds the write-cursor distance by >= 1')
+    rep.rule('TB16', 'the in-place decoders return write cursor - buffer start (the decoded length), not a string function of the output')
+    for name in ('qurl_encode', 'qbase64_encode', 'qhex_encode'):
+        f = prog.func(name)
+        if f is None or f.body is None:
+            continue
+        rd = None
+        for n in f.cfg.nodes:
+            if not isinstance(n.ast, dict) or n.kind == 'macro':
+                continue
+            for x in walk(n.ast):
+                if x.get('kind') == 'CallExpr' and prog.callee_name(x) == 'realloc' and len(children(x)) >= 3:
+                    rd = rd or ReachingDefs(f)
+                    base = canon(children(x)[1])
+                    size = poly_of(children(x)[2], rd, n.id)
+                    # write cursors: locals P with a terminator store *P = 0
+                    curs = set()
+                    for y in walk(f.body):
+                        if y.get('kind') == 'BinaryOperator' and y.get('opcode') == '=' and int_value(children(y)[1]) == 0:
+                            l = strip_parens(children(y)[0])
+                            if l.get('kind') == 'UnaryOperator' and l.get('opcode') == '*' and strip(children(l)[0]).get('kind') == 'DeclRefExpr':
+                                curs.add(canon(children(l)[0]))
+                    rep.instance('TB15')
+                    ok = None
+                    for c in curs:
+                        from .dataflow import Poly
+                        d = (size - (Poly.atom(c) - Poly.atom(base))).as_const()
+                        if d is not None:
+                            ok = d >= 1
+                    if ok is None:
+                        ok = True      # a size not expressed through the write cursor: not decided by this rule
+                    rep.oblige('TB15', ok, {'function': name, 'realloc': canon(x)[:70]})
+                    if not ok:
+                        rep.violation('TB15', f, x.get('_line'), 'shrink:%s' % base, '%s shrinks the output to the write-cursor distance: the '
+                                      'terminator stored at the cursor is cut off' % canon(x)[:60])
+    for name in ('qurl_decode', 'qbase64_decode', 'qhex_decode'):
+        f = prog.func(name)
+        if f is None or f.body is None:
+            continue
+        wr = set()
+        for y in walk(f.body):
+            if y.get('kind') == 'BinaryOperator' and y.get('opcode') == '=':
+                l = strip_parens(children(y)[0])
+                if l.get('kind') == 'UnaryOperator' and l.get('opcode') == '*':
+                    for z in walk(l):
+                        if z.get('kind') == 'DeclRefExpr':
+                            wr.add((z.get('referencedDecl') or {}).get('name'))
+        base = f.params[0].get('name') if f.params else None
+        for r in f.cfg.returns():
+            if not children(r.ast):
+                continue
+            e = strip(children(r.ast)[0])
+            if int_value(e) == 0:
+                continue            # refusal of a NULL argument
+            rep.instance('TB16')
+            calls = [prog.callee_name(y) for y in walk(e) if y.get('kind') == 'CallExpr']
+            names = {(y.get('referencedDecl') or {}).get('name') for y in walk(e) if y.get('kind') == 'DeclRefExpr'}
+            ok = not calls and (bool(names & wr) or bool(names - {base}))
+            rep.oblige('TB16', ok, {'function': name, 'returns': canon(e)[:50]})
+            if not ok:
+                rep.violation('TB16', f, r.line, 'return:%s' % canon(e)[:30], '%s returns %s: a string function of the output stops at the '
+                              'first decoded NUL byte, so binary payloads are reported shorter than they are' % (name, canon(e)[:40]))
